@@ -43,6 +43,9 @@ type FuncContract struct {
 	Pure       bool
 	Inline     bool
 	Overflow   bool
+	NilRecv    bool // the method accepts a nil pointer receiver
+	IndexHints bool     // add instances of bounded quantifiers at live range-loop indices
+	Claims     []string // partial contract: prefixes of the obligation names that are claimed
 	NoInline   []string // callees to treat by havoc
 	PanicsIf   []Clause
 	File       string
@@ -278,6 +281,12 @@ func parseClause(fc *FuncContract, word, rest, pos string) error {
 		fc.Inline = true
 	case "overflow":
 		fc.Overflow = true
+	case "nilrecv":
+		fc.NilRecv = true
+	case "index-hints":
+		fc.IndexHints = true
+	case "claims":
+		fc.Claims = append(fc.Claims, strings.Fields(rest)...)
 	case "unroll":
 		n, err := strconv.Atoi(strings.TrimSpace(rest))
 		if err != nil {
@@ -526,7 +535,12 @@ func parseSpecFunc(kind, s string) (*SpecFunc, error) {
 	rest := strings.TrimSpace(s[j+1:])
 	k := strings.Index(rest, "=")
 	if k < 0 {
-		return nil, fmt.Errorf("expected '='")
+		// no body: an uninterpreted function (nothing is known about it but that it is a function)
+		if sf.Pred || sf.Rec || rest == "" {
+			return nil, fmt.Errorf("expected '='")
+		}
+		sf.Result = rest
+		return sf, nil
 	}
 	if !sf.Pred {
 		sf.Result = strings.TrimSpace(rest[:k])
